@@ -1065,7 +1065,10 @@ SPECIAL_DOCS = ["", " ", "\n", "<", "<a", "<a>", "</a>", "<a></b>", "\ufeff", "\
                 "<a x:b='1'/>", "<a xmlns:x='u' x:b='1' x:b='2'/>", "<?xml version=\"1.0\"?><?xml version=\"1.0\"?><a/>",
                 " <?xml version=\"1.0\"?><a/>", "<a b=1/>", "<a b/>", "<a 1='2'/>", "<1/>", "<a><?xml x?></a>", "\r\n\r\n<a/>\r\n",
                 "<a>\r</a>\r", "<a>" + "<b>" * 200 + "</b>" * 200 + "</a>", "<circuit><visualElement><elementName>In</elementName>",
-                "<a>&#x26;#x26;</a>", "<a b='&lt;'/>", "<a b='<'/>", "<a>&lt;![CDATA[</a>", "<a><![CDATA[]]></a>", "<?pi?>", "<!---->"]
+                "<a>&#x26;#x26;</a>", "<a b='&lt;'/>", "<a b='<'/>", "<a>&lt;![CDATA[</a>", "<a><![CDATA[]]></a>", "<?pi?>", "<!---->",
+                # unterminated constructs that END WITH A LINE BREAK (the error position is then on a row past the last line)
+                "<!--\n", "<a><!--\n", "<a><!-- x\n\n", "<![CDATA[\n", "<a><![CDATA[x\n", "<?xml\n", "<?xml version=\"1.0\"\n", "<a\n", "<a b='\n", "<a>\n",
+                "<a>&\n", "<?pi\n", "<!DOCTYPE a [\n", "<a></a\n", "\n\n", "\r\n", "<a>\r\n<!--\r\n"]
 
 
 def corrupt(rng, xml):
@@ -1077,6 +1080,9 @@ def corrupt(rng, xml):
         k = rng.randrange(0, len(b))
         b = b[:k]
         what = "truncated"
+        if rng.random() < 0.3:
+            b += rng.choice([b"\n", b"\r\n", b"\n\n"])
+            what = "truncated+newline"
     elif r < 0.40:
         ms = list(re.finditer(rb"<(/?)([A-Za-z][A-Za-z0-9]*)", bytes(b)))
         if ms:
@@ -1256,6 +1262,9 @@ def cases(seed, n_desc, n_struct, n_corrupt):
         out.append(gen_desc_case("c16-a-%d-%d" % (seed, i), (seed * 1000003 + i * 7919 + 1) & 0x7FFFFFFF))
     for i in range(n_struct):
         out.append(gen_struct_case("c16-b-%d-%d" % (seed, i), (seed * 1000003 + i * 7919 + 2) & 0x7FFFFFFF))
+    # every special document, always (they are few)
+    for i, xml in enumerate(SPECIAL_DOCS):
+        out.append({"id": "c16-s-%d" % i, "kind": "dig", "xml": xml, "no_model": True, "c16": {"family": "corrupt", "features": ["corrupt:special"]}})
     for i in range(n_corrupt):
         out.append(gen_corrupt_case("c16-c-%d-%d" % (seed, i), (seed * 1000003 + i * 7919 + 3) & 0x7FFFFFFF))
     return out
